@@ -106,6 +106,17 @@ func (e *Eval) firstWhere(n int, pred func(i int) int, reverse bool) []struct{ i
 
 func (e *Eval) scanCall(name string, c *ssa.CallCommon, args []Val) (Val, bool) {
 	m := e.M
+	// the standard library's internal spellings of the same scanners
+	switch {
+	case name == "internal/bytealg.IndexByteString" || name == "internal/bytealg.IndexByte":
+		name = "strings.IndexByte"
+	case name == "internal/bytealg.LastIndexByteString" || name == "internal/bytealg.LastIndexByte":
+		name = "strings.LastIndexByte"
+	case name == "internal/bytealg.CountString":
+		name = "strings.Count"
+	case strings.HasPrefix(name, "internal/stringslite."):
+		name = "strings." + strings.TrimPrefix(name, "internal/stringslite.")
+	}
 	if strings.HasPrefix(name, "(encoding/binary.") && len(args) == 2 {
 		// BigEndian / LittleEndian .Uint16/32/64 of a byte window
 		big := strings.HasPrefix(name, "(encoding/binary.bigEndian)")
